@@ -82,7 +82,10 @@ func (s *syncRun) buildChain(shape [][]string) {
 		var bz [][]byte
 		for _, nm := range txs {
 			b := []byte("tx-" + nm)
-			if s.kv {
+			if nm == "EMPTY" {
+				b = []byte{}
+			}
+			if s.kv && nm != "EMPTY" {
 				b = []byte(fmt.Sprintf("%s%d=%d", nm, bi, bi))
 			}
 			s.w.IDs.Name(b, nm)
@@ -512,6 +515,8 @@ var syncRunCount int
 // empty genesis block, which the model's shapes include as their first element.
 var SyncShapes = map[string][][]string{
 	"ShapeA":   {{"a"}, {"b"}},
+	// a block whose transaction list contains a transaction of zero length (nothing in the node filters them)
+	"ShapeZ": {{"a", "EMPTY"}, {"EMPTY", "b", "EMPTY"}},
 	"ShapeDup": {{"a"}, {}, {"a"}},
 	"ShapeE":   {{}, {"a"}, {}},
 	"ShapeBig": {{"a"}, {}, {"a"}, {"b", "c"}, {}, {"b", "c"}},
@@ -612,7 +617,7 @@ func RunSyncStopQueued(c *Ctx) {
 		reps = 10
 	}
 	for _, ih := range []uint64{1, 2} {
-		for _, shapeName := range []string{"ShapeA", "ShapeE", "ShapeBig"} {
+		for _, shapeName := range []string{"ShapeA", "ShapeE", "ShapeBig", "ShapeZ"} {
 			shape := SyncShapes[shapeName]
 			for b := ih + 1; b < ih+uint64(len(shape)); b++ {
 				for pa := 1; pa <= 3; pa++ {
